@@ -196,6 +196,16 @@ func search(t *testing.T, def *Def, job *Job, out *WorkerOut) {
 		add(out.States, res.States)
 		if res.Abort != "" {
 			out.Aborts[res.Abort]++
+			if os.Getenv("VERIF_SHOW_ABORTS") != "" {
+				fmt.Fprintf(os.Stderr, "ABORTED %s/%s index %d (%s) steps=%d sim=%v\n", job.Prop, job.Family, i, res.Abort, res.Steps, res.SimTime)
+				tr := res.Trace
+				if len(tr) > 40 {
+					tr = tr[len(tr)-40:]
+				}
+				for _, l := range tr {
+					fmt.Fprintln(os.Stderr, "   ", l)
+				}
+			}
 		}
 		nfault := 0
 		for _, v := range res.Faults {
